@@ -129,6 +129,16 @@ def run(tier):
             ops.append("HYP %s 0 %s" % (corpus.tpath(hl), common.wide(w)))
         cases.append(common.Case("c03-h%d" % hi, [], ops, {"table": hl, "kind": "hyph"}))
     common.run_cases(exe, cases, batch=1 if tier == 'quick' and False else 6, timeout=120)
+    # (d) wide generated tables: every opcode family (look-ahead search, match patterns with loops over sub-patterns that
+    #     can match nothing, nocont/compbrl/sequence delimiters, base chains, grouping, swap ...); the tick budget covers
+    #     the instrumented loops, the wall-clock watchdog everything else (doPassSearch, chain walks, the compiler)
+    wide = st.wide_cases(rng, 150 if tier == "quick" else 4000, per_table=5, back=True, exact=False, budget=150000, tag="c03w")
+    for c in wide:
+        c.setup.insert(0, "HOOK ticks 1")
+        c.meta["kind"] = "generated"
+        c.meta["table"] = "generated"
+    common.run_cases(exe, wide, batch=6, timeout=25)
+    cases += wide
     dist = {"calls": 0, "passes_checked": 0, "guarded_passes": 0, "nonadvancing_rule_steps": 0, "max_ratio_guarded": 0.0,
             "max_ratio_main": 0.0, "hyph_calls": 0, "faults": 0}
     for c in cases:
